@@ -3,8 +3,8 @@
    equal WHICH recomputed one for deb's md5sums and the size estimates. *)
 From Coq Require Import List NArith ZArith Bool.
 From Coq Require Import Strings.Byte.
-From NfpmV Require Import Lib.Bytes Model.Payload Spec.C03.
-From NfpmV Require Import Proofs.C03Proofs.
+From NfpmV Require Import Lib.Bytes Model.Payload Model.Mtree Spec.C03.
+From NfpmV Require Import Proofs.C03Proofs Proofs.MtreeProofs.
 Import ListNotations.
 
 Theorem C03_md5sums_one_line_per_regular_file : forall payload d n,
@@ -28,3 +28,33 @@ Theorem C03_installed_size_nonneg : forall payload,
   (forall e, In e payload -> 0 <= fo_size e)%Z -> (0 <= installed_kib payload)%Z.
 Proof. exact installed_kib_nonneg. Qed.
 Print Assumptions C03_installed_size_nonneg.
+
+(* ---- archlinux .MTREE (Model/Mtree.v): the text as written, and an mtree(5) reader over it ---- *)
+
+(* every entry list reads back as itself - whatever bytes the names and link targets hold (blanks, newlines,
+   backslashes, non-ASCII): no hypothesis on [me_path] or [me_link] *)
+Theorem C03_mtree_roundtrip : forall es,
+  Forall (fun e => wf_mentry e = true) es -> mtree_read (mtree_text es) = Some es.
+Proof. exact mtree_roundtrip. Qed.
+Print Assumptions C03_mtree_roundtrip.
+
+(* the .MTREE of a package: one line per shipped member, .PKGINFO first, then the payload in archive order, each
+   with the type, mode, time (and size, digests, link target) of that member *)
+Theorem C03_mtree_lists_what_is_shipped : forall pkginfo payload,
+  wf_shipped pkginfo = true -> Forall (fun s => wf_shipped s = true) payload ->
+  mtree_read (arch_mtree pkginfo payload) = Some (map mentry_of (pkginfo :: payload)).
+Proof. exact arch_mtree_lists_what_is_shipped. Qed.
+Print Assumptions C03_mtree_lists_what_is_shipped.
+
+(* what the per-run re-encoding of a real .MTREE establishes *)
+Theorem C03_mtree_check_sound : forall s,
+  mtree_reencodes s = true -> exists es, mtree_read s = Some es /\ s = mtree_text es.
+Proof. exact mtree_reencodes_sound. Qed.
+Print Assumptions C03_mtree_check_sound.
+
+(* before the repair (names written without the escape) a name with a blank did not read back; with it, it does *)
+Theorem C03_mtree_unquoted_blank_refuted :
+  wf_mentry blank_entry = true /\ mtree_read (mtree_header ++ mline_unquoted blank_entry) = None
+  /\ mtree_read (mtree_text [blank_entry]) = Some [blank_entry].
+Proof. exact unquoted_blank_does_not_read_back. Qed.
+Print Assumptions C03_mtree_unquoted_blank_refuted.
